@@ -2,6 +2,7 @@
    case ::= (case ID FAMILY payload)   obs ::= (obs ID result) *)
 From Verif Require Import Base.Prelude Base.Str Interp.Sexp Interp.RunUnits Interp.RunUnitsF Interp.RunSchema Interp.RunCodegen Interp.RunFunction.
 From Verif Require Interp.RunStep Interp.RunFootprint.
+From Verif Require Import Interp.RunCompat Interp.RunLink.
 Open Scope string_scope.
 
 Definition run_case (x : sexp) : sexp :=
@@ -14,6 +15,8 @@ Definition run_case (x : sexp) : sexp :=
         else if String.eqb fam "function" then run_function_case payload
         else if String.eqb fam "c11steps" then Verif.Interp.RunStep.run_steps_case payload
         else if String.eqb fam "c13foot" then Verif.Interp.RunFootprint.run_foot_case payload
+        else if String.eqb fam "c15" then run_c15_case payload
+        else if String.eqb fam "c14" then run_c14_case payload
         else bad "unknown family" in
       Ls [At "obs"; id; r]
   | _ => bad "not a case"
